@@ -110,6 +110,8 @@ PROPS["C03"] = {
         "Lace.C03.run_panic_only_rti",
         "Lace.C02.execute_eq_isa",
     ],
+    "also": ["C03T"],
+    "needs_bin": True,
     "compare": c03_compare,
     "classify": c03_classify,
     "nontrivial": c03_nontrivial,
